@@ -900,9 +900,6 @@ func (p *Posix) fileToObjVersions(bucket string) backend.GetVersionsFunc {
 		if err == nil {
 			versionId = string(versionIdBytes)
 		}
-		if versionId == versionIdMarker {
-			*pastVersionIdMarker = true
-		}
 		if *pastVersionIdMarker {
 			fi, err := d.Info()
 			if errors.Is(err, fs.ErrNotExist) {
@@ -955,6 +952,10 @@ func (p *Posix) fileToObjVersions(bucket string) backend.GetVersionsFunc {
 					NextVersionIdMarker: versionId,
 				}, nil
 			}
+		} else if versionId == versionIdMarker {
+			// the marker names the last version already returned:
+			// the listing continues after it
+			*pastVersionIdMarker = true
 		}
 
 		if !p.versioningEnabled() {
@@ -1043,6 +1044,17 @@ func (p *Posix) fileToObjVersions(bucket string) backend.GetVersionsFunc {
 		isNullVersionIdObjFound := nullVersionIdObj != nil || nullObjDelMarker != nil
 
 		if len(dirEnts) == 1 && (isNullVersionIdObjFound) {
+			if !*pastVersionIdMarker {
+				// the null version is the marker (or precedes it):
+				// nothing of this object is left to list
+				if versionIdMarker == nullVersionId {
+					*pastVersionIdMarker = true
+				}
+				return &backend.ObjVersionFuncResult{
+					ObjectVersions: objects,
+					DelMarkers:     delMarkers,
+				}, nil
+			}
 			if nullObjDelMarker != nil {
 				delMarkers = append(delMarkers, *nullObjDelMarker)
 			}
@@ -1087,22 +1099,30 @@ func (p *Posix) fileToObjVersions(bucket string) backend.GetVersionsFunc {
 			// by checking its creation date, then continue the adding
 			if isNullVersionIdObjFound && !isNullVersionIdObjAdded {
 				if nf.ModTime().After(f.ModTime()) {
-					if nullVersionIdObj != nil {
-						objects = append(objects, *nullVersionIdObj)
-					}
-					if nullObjDelMarker != nil {
-						delMarkers = append(delMarkers, *nullObjDelMarker)
-					}
-
 					isNullVersionIdObjAdded = true
 
-					if availableObjCount--; availableObjCount == 0 {
-						return &backend.ObjVersionFuncResult{
-							ObjectVersions:      objects,
-							DelMarkers:          delMarkers,
-							Truncated:           true,
-							NextVersionIdMarker: nullVersionId,
-						}, nil
+					if !*pastVersionIdMarker {
+						// still before the marker: the null version was
+						// returned on an earlier page (or is the marker)
+						if versionIdMarker == nullVersionId {
+							*pastVersionIdMarker = true
+						}
+					} else {
+						if nullVersionIdObj != nil {
+							objects = append(objects, *nullVersionIdObj)
+						}
+						if nullObjDelMarker != nil {
+							delMarkers = append(delMarkers, *nullObjDelMarker)
+						}
+
+						if availableObjCount--; availableObjCount == 0 {
+							return &backend.ObjVersionFuncResult{
+								ObjectVersions:      objects,
+								DelMarkers:          delMarkers,
+								Truncated:           true,
+								NextVersionIdMarker: nullVersionId,
+							}, nil
+						}
 					}
 				}
 			}
@@ -1172,7 +1192,12 @@ func (p *Posix) fileToObjVersions(bucket string) backend.GetVersionsFunc {
 
 		// If null versionId object is found but not yet pushed,
 		// push it after the listing, as it's the oldest object version
-		if isNullVersionIdObjFound && !isNullVersionIdObjAdded {
+		if isNullVersionIdObjFound && !isNullVersionIdObjAdded && !*pastVersionIdMarker {
+			// the null version is the marker: nothing of this object is left
+			if versionIdMarker == nullVersionId {
+				*pastVersionIdMarker = true
+			}
+		} else if isNullVersionIdObjFound && !isNullVersionIdObjAdded {
 			if nullVersionIdObj != nil {
 				objects = append(objects, *nullVersionIdObj)
 			}
